@@ -199,6 +199,8 @@ func dhtIterate(nodes []NodeInfo, key []byte, n int, fn func(node NodeInfo) (new
 	if n < 1 {
 		panic(n)
 	}
+	// visited holds the IDs which have already been passed to fn, so that no node is contacted twice.
+	visited := make(map[p2p.PeerID]struct{})
 	for len(nodes) > 0 {
 		// TODO: use a heap
 		slices.SortFunc(nodes, func(a, b NodeInfo) bool {
@@ -209,6 +211,10 @@ func dhtIterate(nodes []NodeInfo, key []byte, n int, fn func(node NodeInfo) (new
 		}
 		var node NodeInfo
 		node, nodes = pop(nodes)
+		if _, yes := visited[node.ID]; yes {
+			continue
+		}
+		visited[node.ID] = struct{}{}
 
 		newNodes, cont := fn(node)
 		if !cont {
@@ -217,6 +223,9 @@ func dhtIterate(nodes []NodeInfo, key []byte, n int, fn func(node NodeInfo) (new
 		for _, newNode := range newNodes {
 			if !DistanceLt(key, newNode.ID[:], node.ID[:]) {
 				continue // ignore peers that aren't actually closer
+			}
+			if _, yes := visited[newNode.ID]; yes {
+				continue // ignore peers that have already been contacted
 			}
 			if !contains(nodes, newNode, func(a, b NodeInfo) bool {
 				return a.ID == b.ID
